@@ -47,9 +47,9 @@ N_etag == <<101, 116, 97, 103>>
 Digit(v) == <<48 + v>>
 Chunk(k) == CASE k = 0 -> <<>> [] k = 1 -> <<97>> [] k = 2 -> <<98, 99>> [] OTHER -> <<100, 101, 102, 103>>
 
-VARIABLES cfg, status, hdr, buf, sent, hw, fin, run, com, outcome, step
+VARIABLES cfg, status, hdr, buf, bufw, sent, hw, fin, run, com, outcome, step
 
-vars == <<cfg, status, hdr, buf, sent, hw, fin, run, com, outcome>>
+vars == <<cfg, status, hdr, buf, bufw, sent, hw, fin, run, com, outcome>>
 
 Proj == [raised |-> run = "raised"]
 Obs(a, args) == [act |-> a, args |-> args, exp |-> Proj']
@@ -61,6 +61,7 @@ InitWith(c) ==
     /\ status = 200
     /\ hdr = <<>>          \* handler-set headers: sequence of [name (lower case), value (trimmed)]
     /\ buf = <<>>          \* written, not yet flushed
+    /\ bufw = 0            \* number of write() calls whose chunk is still buffered (a call may write zero bytes)
     /\ sent = <<>>         \* body bytes accepted for the wire (what a GET carries; kept for HEAD too)
     /\ hw = FALSE          \* status line and headers committed
     /\ fin = FALSE
@@ -92,64 +93,81 @@ CommitRec(finishing) ==
 SetStatus(s) ==
     /\ Running
     /\ status' = s
-    /\ UNCHANGED <<cfg, hdr, buf, sent, hw, fin, run, com, outcome>>
+    /\ UNCHANGED <<cfg, hdr, buf, bufw, sent, hw, fin, run, com, outcome>>
     /\ step' = Obs("set_status", <<s>>)
 
 SetHeaderB(n, v) ==
     /\ Running
     /\ hdr' = Append(DropName(hdr, LowerSeq(n)), [name |-> LowerSeq(n), value |-> Trim(v)])
-    /\ UNCHANGED <<cfg, status, buf, sent, hw, fin, run, com, outcome>>
+    /\ UNCHANGED <<cfg, status, buf, bufw, sent, hw, fin, run, com, outcome>>
     /\ step' = Obs("set_header", <<n, v>>)
 
 AddHeaderB(n, v) ==
     /\ Running
     /\ hdr' = Append(hdr, [name |-> LowerSeq(n), value |-> Trim(v)])
-    /\ UNCHANGED <<cfg, status, buf, sent, hw, fin, run, com, outcome>>
+    /\ UNCHANGED <<cfg, status, buf, bufw, sent, hw, fin, run, com, outcome>>
     /\ step' = Obs("add_header", <<n, v>>)
 
 ClearHeaderB(n) ==
     /\ Running
     /\ hdr' = DropName(hdr, LowerSeq(n))
-    /\ UNCHANGED <<cfg, status, buf, sent, hw, fin, run, com, outcome>>
+    /\ UNCHANGED <<cfg, status, buf, bufw, sent, hw, fin, run, com, outcome>>
     /\ step' = Obs("clear_header", <<n>>)
 
 WriteB(bs) ==
     /\ Running
-    /\ IF fin THEN run' = "raised" /\ UNCHANGED buf
-              ELSE buf' = buf \o bs /\ UNCHANGED run
+    /\ IF fin THEN run' = "raised" /\ UNCHANGED <<buf, bufw>>
+              ELSE buf' = buf \o bs /\ bufw' = bufw + 1 /\ UNCHANGED run
     /\ UNCHANGED <<cfg, status, hdr, sent, hw, fin, com, outcome>>
     /\ step' = Obs("write", <<bs>>)
 
+(* Whether a flush / finish that would put `data` on the wire under the committed decisions c is
+   rejected.  MustReject: the contract demands it.  MayReject: contract-neutral (HEAD responses
+   carry no body whatever was written, so refusing a body for a 204/304 answer to HEAD is as good as
+   dropping it) - the specification allows both. *)
+LenBad(c, n, finishing) == c.ecl # NoCL /\ (IF finishing THEN n # c.ecl ELSE n > c.ecl)
+MustReject(c, data, n, finishing) ==
+    ~IsHead /\ \/ NoBodyStatus(c.status) /\ data # <<>>
+               \/ ~NoBodyStatus(c.status) /\ LenBad(c, n, finishing)
+MayReject(c, data, emptyWrites) ==
+    \/ IsHead /\ NoBodyStatus(c.status) /\ data # <<>>
+    \/ NoBodyStatus(c.status) /\ data = <<>> /\ emptyWrites      \* write(b"") calls before a 204/304 finish: zero bytes, still "a body"?
+(* an explicit Content-Length that disagrees with the (empty) body of a 204/304 response: the
+   message is complete without it; the call may still report the inconsistency by raising *)
+MayRaiseAfter(c, n) == ~IsHead /\ NoBodyStatus(c.status) /\ c.ecl # NoCL /\ n # c.ecl
+RejChoices(c, data, n, finishing, emptyWrites) ==
+    IF MustReject(c, data, n, finishing) THEN {TRUE}
+    ELSE IF MayReject(c, data, emptyWrites) THEN {TRUE, FALSE} ELSE {FALSE}
+
 Flush ==
     /\ Running
-    /\ IF fin THEN UNCHANGED <<buf, sent, hw, run, com, outcome>>
+    /\ IF fin THEN UNCHANGED <<buf, bufw, sent, hw, run, com, outcome>>
        ELSE LET c == IF hw THEN com ELSE CommitRec(FALSE)
                 s2 == sent \o buf
-                rej == ~IsHead /\ \/ NoBodyStatus(c.status) /\ buf # <<>>
-                                  \/ c.ecl # NoCL /\ c.status # 304 /\ Len(s2) > c.ecl
-            IN IF rej
+            IN \E rej \in RejChoices(c, buf, Len(s2), FALSE, FALSE) :
+               IF rej
                THEN /\ run' = "raised"
                     /\ outcome' = IF hw THEN "aborted" ELSE "error"
-                    /\ UNCHANGED <<buf, sent, hw, com>>
-               ELSE /\ hw' = TRUE /\ com' = c /\ sent' = s2 /\ buf' = <<>>
+                    /\ UNCHANGED <<buf, bufw, sent, hw, com>>
+               ELSE /\ hw' = TRUE /\ com' = c /\ sent' = s2 /\ buf' = <<>> /\ bufw' = 0
                     /\ UNCHANGED <<run, outcome>>
     /\ UNCHANGED <<cfg, status, hdr, fin>>
     /\ step' = Obs("flush", <<>>)
 
 (* finish(chunk) and the implicit finish at the end of the handler method *)
 DoFinish(bs, okRun) ==
-    IF fin THEN UNCHANGED <<buf, sent, hw, fin, com, outcome>> /\ run' = (IF okRun = "ended" THEN "ended" ELSE "raised")
+    IF fin THEN UNCHANGED <<buf, bufw, sent, hw, fin, com, outcome>> /\ run' = (IF okRun = "ended" THEN "ended" ELSE "raised")
     ELSE LET c == IF hw THEN com ELSE CommitRec(TRUE)
              data == IF c.subst THEN <<>> ELSE buf \o bs
              s2 == sent \o data
-             rej == ~IsHead /\ \/ NoBodyStatus(c.status) /\ data # <<>>
-                               \/ c.ecl # NoCL /\ c.status # 304 /\ Len(s2) # c.ecl
-         IN IF rej
+         IN \E rej \in RejChoices(c, data, Len(s2), TRUE, ~hw /\ ~c.subst /\ (bufw > 0)) :
+            IF rej
             THEN /\ run' = "raised"
                  /\ outcome' = IF hw THEN "aborted" ELSE "error"
-                 /\ UNCHANGED <<buf, sent, hw, fin, com>>
-            ELSE /\ fin' = TRUE /\ hw' = TRUE /\ com' = c /\ sent' = s2 /\ buf' = <<>>
-                 /\ outcome' = "complete" /\ run' = okRun
+                 /\ UNCHANGED <<buf, bufw, sent, hw, fin, com>>
+            ELSE /\ fin' = TRUE /\ hw' = TRUE /\ com' = c /\ sent' = s2 /\ buf' = <<>> /\ bufw' = 0
+                 /\ outcome' = "complete"
+                 /\ run' \in (IF MayRaiseAfter(c, Len(s2)) THEN {okRun, "raised"} ELSE {okRun})
 
 FinishB(bs) ==
     /\ Running
@@ -193,7 +211,7 @@ CompleteOK(P) ==
     /\ P.body = ExpBody
     /\ NoBody => ~HasHeader(P, N_transfer_encoding)
     /\ LET cl == ValuesOf(P.hdrs, N_content_length) IN
-       (com.ecl = NoCL /\ Len(cl) > 0 /\ com.status # 304) => DecVal(cl[1]) = Len(sent)
+       (com.ecl = NoCL /\ Len(cl) > 0 /\ ~com.subst) => DecVal(cl[1]) = Len(sent)
 
 ErrorOK(P) == P.ok /\ P.complete /\ P.rest = <<>> /\ P.code = 500
 
@@ -254,10 +272,10 @@ FinishedIsComplete == fin <=> outcome = "complete"
 CommittedOnce == [][hw => com' = com]_vars
 OutcomeSticky == [][outcome # "open" => outcome' = outcome]_vars
 NoBodyObligation == Completed /\ (IsHead \/ com.status \in {204, 304}) => ExpBody = <<>>
-ExplicitLengthHonoured == Completed /\ com.ecl # NoCL /\ ~IsHead /\ com.status # 304 => Len(sent) = com.ecl
+ExplicitLengthHonoured == Completed /\ com.ecl # NoCL /\ ~IsHead /\ ~NoBodyStatus(com.status) => Len(sent) = com.ecl
 NothingAfterFinish == [][fin => sent' = sent /\ com' = com]_vars
 SubstitutionOnlyOnMatch == com.subst => (com.status = 304 /\ EtagHit /\ cfg.method \in {"GET", "HEAD"})
 
-StateBound == Len(sent) + Len(buf) <= MaxBody /\ Len(hdr) <= MaxHdr
+StateBound == Len(sent) + Len(buf) <= MaxBody /\ Len(hdr) <= MaxHdr /\ bufw <= 2
 View == vars
 =============================================================================
